@@ -8,7 +8,7 @@ use std::sync::Arc;
 use itertools::Itertools;
 use petgraph::graph::NodeIndex;
 
-use crate::abstract_domain::{DataDomain, DomainInsertion, HasTop, TryToBitvec};
+use crate::abstract_domain::{DataDomain, DomainInsertion, HasTop, SizedDomain, TryToBitvec};
 use crate::intermediate_representation::{ExternSymbol, Project, RuntimeMemoryImage};
 use crate::{abstract_domain::IntervalDomain, prelude::*};
 use crate::{
@@ -585,6 +585,11 @@ impl<T: AbstractDomain + DomainInsertion + HasTop + Eq + From<String>> State<T> 
         string_pointer: DataDomain<IntervalDomain>,
     ) {
         if let Some(pi_state) = self.get_pointer_inference_state().cloned() {
+            if string_pointer.bytesize() != pi_state.stack_id.bytesize() {
+                // Only pointer-sized values can be string pointers.
+                // Values of different sizes at the same stack offset could not be merged.
+                return;
+            }
             let pointer = pi_state.eval(target);
             for (target, offset) in pointer.get_relative_values().iter() {
                 if State::<T>::is_stack_pointer(&pi_state, target) {
